@@ -34,15 +34,37 @@ class Obligation(object):
         self.name, self.assumptions, self.goal, self.kind, self.info = name, assumptions, goal, kind, info or {}
 
 
-def is_logging_call(node):
-    """statement-level calls on logger.* / logging.* / print are dropped (A-LOG)"""
+LOG_NAMES = ('logger', 'logging', 'log')
+
+
+def is_logging_call(node, aliases=()):
+    """statement-level calls on logger.* / logging.* / print are dropped (A-LOG); so are `alias = logger.method`
+    assignments and statement-level calls through such a local alias"""
     if isinstance(node, ast.Expr) and isinstance(node.value, ast.Call):
         f = node.value.func
-        if isinstance(f, ast.Name) and f.id == 'print':
+        if isinstance(f, ast.Name) and (f.id == 'print' or f.id in aliases):
             return True
-        if isinstance(f, ast.Attribute) and isinstance(f.value, ast.Name) and f.value.id in ('logger', 'logging', 'log'):
+        if isinstance(f, ast.Attribute) and isinstance(f.value, ast.Name) and f.value.id in LOG_NAMES:
             return True
+    if isinstance(node, ast.Assign) and len(node.targets) == 1 and isinstance(node.targets[0], ast.Name) and \
+            isinstance(node.value, ast.Attribute) and isinstance(node.value.value, ast.Name) and node.value.value.id in LOG_NAMES:
+        return True
     return False
+
+
+def log_aliases(fnode):
+    """local names that are only ever bound to a logger method (`_log_info = logger.info`)"""
+    cand, other = set(), set()
+    for n in ast.walk(fnode):
+        if isinstance(n, ast.Assign):
+            for t in n.targets:
+                if isinstance(t, ast.Name):
+                    if len(n.targets) == 1 and isinstance(n.value, ast.Attribute) and isinstance(n.value.value, ast.Name) \
+                            and n.value.value.id in LOG_NAMES:
+                        cand.add(t.id)
+                    else:
+                        other.add(t.id)
+    return cand - other
 
 
 def assigned_names(nodes):
@@ -169,7 +191,9 @@ class ExecCore(object):
         return outs
 
     def exec_stmt(self, s, st):
-        if is_logging_call(s):
+        if not hasattr(self, '_log_aliases'):
+            self._log_aliases = log_aliases(self.fi.node)
+        if is_logging_call(s, self._log_aliases):
             return [Outcome('normal', st)]
         m = getattr(self, 'st_' + s.__class__.__name__, None)
         if m is None:
